@@ -57,6 +57,26 @@ def run(srcdir: str, cachedir: str, targets: list, enabled: bool = True) -> dict
 	return out
 
 
+def run_raising(srcdir: str, cachedir: str, targets: list, enabled: bool = True) -> dict:
+	"""like run(), but lets whatever the pipeline raises escape (used by the C07 on-disk obligation)"""
+	definitions = {
+		to_fullyname(SourceEnvPath): lambda: SourceEnvPath.instantiate([srcdir]),
+		to_fullyname(CacheSetting): lambda: CacheSetting(basedir=cachedir, enabled=enabled),
+		to_fullyname(ModulePaths): lambda: ModulePaths([ModulePath(t, language='py') for t in targets]),
+		to_fullyname(ITranspiler): Py2Cpp,
+		to_fullyname(Renderer): Renderer,
+		to_fullyname(RendererEmitter): Middleware,
+		to_fullyname(RendererHelperProvider): renderer_helper_provider_cpp,
+		to_fullyname(RendererSetting): _renderer_setting,
+		to_fullyname(TranslationMapping): translation_mapping_cpp,
+		to_fullyname(TranspilerOptions): lambda: TranspilerOptions(verbose=False, env={}),
+	}
+	app = App(definitions)
+	modules = app.resolve(Modules)
+	transpiler = app.resolve(ITranspiler)
+	return {t: transpiler.transpile(modules.load(t).entrypoint) for t in targets}
+
+
 def strip_meta(text: str) -> str:
 	"""the emitted text without the `@tranp.meta` header line (it carries the module hash, which is not behaviour)"""
 	return '\n'.join(ln for ln in text.split('\n') if '@tranp.meta' not in ln)
